@@ -18,11 +18,11 @@
 (*   - the canonical text of every enumerated event (CASE lines),          *)
 (*   - that an event carrying the id and signature of `orig` is accepted   *)
 (*     iff Canon(ev) = Canon(orig), and that this is the case iff NO field *)
-(*     was tampered with (AcceptIffUntampered).  The latter is a theorem   *)
+(*     was tampered with (AcceptIffUntampered, which contains "every       *)
+(*     Tamper step changes the canonical text").  The latter is a theorem  *)
 (*     about the DESIGN: it needs Canon to be injective, which TLC checks  *)
 (*     by exhibiting a left inverse (DecodeInverts) on every enumerated    *)
-(*     and every tampered event, and directly on every Tamper transition   *)
-(*     (TamperChangesCanon);                                               *)
+(*     and every tampered event, and directly on every Tamper transition;  *)
 (*   - that the non-canonical spellings of the same fields (CanonAlt) are  *)
 (*     different texts exactly when they touch the event (AltSound), so an *)
 (*     id hashed over them is NOT the event's id.                          *)
@@ -33,13 +33,17 @@ EXTENDS Naturals, Sequences, FiniteSets, TLC, Json
 
 CONSTANTS Alpha,       \* code points: content / tag strings of length <= 2 are enumerated exhaustively over it
           Alpha3,      \* code points for the exhaustive strings of length 3
-          TamperEmit   \* families of events whose Tamper successors are emitted as TCASE lines
+          TamperEmit,  \* families of events whose Tamper successors are emitted as TCASE lines
+          TamperWide   \* TRUE: every enumerated event is tampered with and has its non-canonical spellings
+                       \* checked (thorough); FALSE: a representative subset, see Tampered (quick)
 
 VARIABLES ev,          \* the event as it is now (possibly tampered)
           orig,        \* the event that was hashed and signed
-          tam          \* "none" or the name of the tamper step taken
+          tam,         \* "none" or the name of the tamper step taken
+          txt,         \* Canon(ev)   - what verification hashes        (kept in the state so that every
+          otxt         \* Canon(orig) - what was hashed when signing      invariant shares one computation)
 
-vars == <<ev, orig, tam>>
+vars == <<ev, orig, tam, txt, otxt>>
 
 (* --------------------------------- alphabets --------------------------------- *)
 Surrogates == 55296..57343
@@ -294,18 +298,28 @@ Tampers(e) ==
     \cup {<<x[1], [e EXCEPT !.tags = x[2]]>> : x \in TagEdits(e.tags)}
 
 (* ----------------------------------- behaviour -------------------------------- *)
-Init == ev \in Events /\ orig = ev /\ tam = "none"
+Init == ev \in Events /\ orig = ev /\ tam = "none" /\ txt = Canon(ev) /\ otxt = txt
+
+StrSize(e) == Len(e.content) + Len(Cat(Cat(e.tags)))      \* code points in all strings of e
+\* which enumerated events are tampered with: all of them (thorough), or a subset that keeps every
+\* tamper operator and every family represented (quick)
+Tampered(e) == \/ TamperWide
+               \/ e.f \in {"content", "tagstr"} /\ StrSize(e) <= 1
+               \/ e.f = "shape"
+               \/ e.f = "nested" /\ (Len(e.content) = 0 \/ Len(e.tags) = 0)
+               \/ e.f = "num" /\ (e.kind \in {1, 65535} \/ e.ts \in {<<0>>, U64Max})
 
 Tamper == /\ tam = "none"
-          /\ \E m \in Tampers(ev) : ev' = m[2] /\ tam' = m[1]
-          /\ UNCHANGED orig
+          /\ Tampered(ev)
+          /\ \E m \in Tampers(ev) : ev' = m[2] /\ tam' = m[1] /\ txt' = Canon(m[2])
+          /\ UNCHANGED <<orig, otxt>>
 
 Next == Tamper
 Spec == Init /\ [][Next]_vars
 
 \* what verification decides for an event that carries the id (= hash of Canon(orig)) and the
 \* signature of `orig`: the recomputed hash equals the id iff the texts are equal (SHA-256 injective)
-Accept == Canon(ev) = Canon(orig)
+Accept == txt = otxt
 Expect == IF Accept THEN "accept" ELSE "reject"
 
 (* ----------------------------------- invariants ------------------------------- *)
@@ -318,30 +332,27 @@ TypeOK == /\ Len(ev.pk) = 64 /\ \A i \in 1..64 : ev.pk[i] \in 0..15
           /\ \A i \in 1..Len(ev.tags) : \A j \in 1..Len(ev.tags[i]) : IsStr(ev.tags[i][j])
 
 TamperIsChange      == tam # "none" => ~SameFields(ev, orig)
-TamperChangesCanon  == tam # "none" => Canon(ev) # Canon(orig)
 AcceptIffUntampered == Accept <=> (tam = "none")
 
 \* Canon has a left inverse: it is injective on ALL events, not only pairwise on the enumerated ones
-DecodeInverts == LET d == Decode(Canon(ev)) IN d.ok /\ SameFields(d, ev)
+DecodeInverts == LET d == Decode(txt) IN d.ok /\ SameFields(d, ev)
 
 \* the canonical text is JSON without white space: no raw control character, and every
 \* code point of a string is spelt with 1, 2 or 6 characters
-CanonIsClean == LET c == Canon(ev) IN
-                /\ \A i \in 1..Len(c) : c[i] >= 32
+CanonIsClean == /\ \A i \in 1..Len(txt) : txt[i] >= 32
                 /\ \A x \in CharsOf(ev) : Len(Esc(x)) = (IF x \in ShortSet THEN 2 ELSE IF x < 32 THEN 6 ELSE 1)
                 /\ \A x \in CharsOf(ev) : (x = 127 \/ x = 47 \/ x >= 128) => Esc(x) = <<x>>
 
-\* a non-canonical spelling is a different text exactly when it touches the event
-AltSound == tam = "none" => LET c == Canon(ev) IN \A st \in Styles : (CanonAlt(st, ev) # c) <=> Touches(st, ev)
-
-(* ------------------------------------ emission -------------------------------- *)
-StrSize(e) == Len(e.content) + Cardinality(Pos(e.tags))
 AltEmit(e) == \/ e.f \in {"content", "tagstr"} /\ Len(e.content) <= 1 /\ (\A p \in Pos(e.tags) : Len(e.tags[p[1]][p[2]]) <= 1)
               \/ e.f = "nested" /\ Len(e.tags) <= 1
               \/ e.f = "num" /\ e.kind = 1
 
+\* a non-canonical spelling is a different text exactly when it touches the event
+AltSound == (tam = "none" /\ (TamperWide \/ AltEmit(ev))) => \A st \in Styles : (CanonAlt(st, ev) # txt) <=> Touches(st, ev)
+
+(* ------------------------------------ emission -------------------------------- *)
 CaseRec(e) == [f |-> e.f, pk |-> PkIdx(e.pk), ts |-> e.ts, kind |-> e.kind, tags |-> e.tags, content |-> e.content,
-               canon |-> Canon(e), expect |-> Expect,
+               canon |-> txt, expect |-> Expect,
                alts |-> IF AltEmit(e) THEN {[st |-> st, text |-> CanonAlt(st, e)] : st \in {x \in Styles : Touches(x, e)}} ELSE {}]
 
 PkFlip(a, b) == IF a = b \/ b \in {PK1, PK2} THEN <<0, 0>>
